@@ -42,6 +42,88 @@ def sh(cmd, cwd=None, timeout=3600, env=None, quiet=True):
 
 
 # ---------------------------------------------------------------------------- Coq part
+def coq_deps(vfile):
+    """the .v files (relative to coq/) that vfile transitively Requires from this development"""
+    index = {}
+    for dp, _, fs in os.walk(os.path.join(COQ, "theories")):
+        for f in fs:
+            if f.endswith(".v"):
+                index[f[:-2]] = os.path.relpath(os.path.join(dp, f), COQ)
+    seen, todo = set(), [vfile]
+    while todo:
+        f = todo.pop()
+        if f in seen or not os.path.exists(os.path.join(COQ, f)):
+            continue
+        seen.add(f)
+        txt = re.sub(r"\(\*.*?\*\)", "", open(os.path.join(COQ, f)).read(), flags=re.S)
+        for m in re.finditer(r"From\s+QwtModel\s+Require\s+(?:Import\s+|Export\s+)?([^.]*)\.", txt):
+            for mod in m.group(1).split():
+                if mod in index:
+                    todo.append(index[mod])
+    return sorted(seen)
+
+
+def glob_graph():
+    """definition-level reference graph of the development, from the .glob files coqc writes:
+    (module, name) -> set of (module, name) it mentions (statement, body or proof script)"""
+    g = {}
+    for dp, _, fs in os.walk(os.path.join(COQ, "theories")):
+        for f in fs:
+            if not f.endswith(".glob"):
+                continue
+            mod, cur = None, None
+            for line in open(os.path.join(dp, f), errors="replace"):
+                if line.startswith("F"):
+                    mod = line[1:].strip()
+                    continue
+                if line.startswith("R"):
+                    parts = line.split()
+                    if len(parts) < 5 or cur is None or parts[-1] in ("lib", "var", "not", "binder"):
+                        continue
+                    name = parts[3].split(":")[0]
+                    if parts[2] != "<>":
+                        name = parts[2] + "." + name
+                    g.setdefault(cur, set()).add((parts[1], name))
+                    continue
+                parts = line.split()
+                if len(parts) >= 4 and parts[0] not in ("binder", "DIGEST") and re.match(r"\d+:\d+$", parts[1]):
+                    if parts[0] in ("var", "sec", "mod", "modtype"):
+                        continue
+                    name = parts[3]
+                    if parts[2] != "<>":
+                        name = parts[2] + "." + name
+                    cur = (mod, name)
+                    g.setdefault(cur, set())
+    return g
+
+
+def glob_reaches(graph, starts, target_names):
+    """which of target_names (constants of Gen.Consts) are reachable from the start nodes"""
+    seen, todo, hit = set(), list(starts), set()
+    while todo:
+        n = todo.pop()
+        if n in seen:
+            continue
+        seen.add(n)
+        if n[0] == "QwtModel.Gen.Consts" and n[1] in target_names:
+            hit.add(n[1])
+        todo.extend(graph.get(n, ()))
+    return hit
+
+
+# T1 sites whose function is also translated by T3: the theorem that the regenerated function equals
+# the hand model (which uses the constant) then carries the tie for that constant
+T3_COVER = {}
+for _n in ("QV_SYM_MASK QV_WORD_SHIFT QV_WORD_MASK QV_LOW_PLANE QVG_WORD_SHIFT QVG_WORD_MASK QVG_LOW_PLANE "
+           "QVR_WORD_SHIFT QVR_WORD_MASK").split():
+    T3_COVER[_n] = ("LeavesLine.v", "theories/Proofs/LeavesLineOk.vo")
+for _n in ("K_ONES_STEP4 K_ONES_STEP8 K_LAMBDAS_STEP8 SIW_M1 SIW_M2 SIW_M3 SIW_PLACE_MUL SIW_NOTFOUND "
+           "SIW_BYTE_MASK").split():
+    T3_COVER[_n] = ("LeavesUtils.v", "theories/Proofs/LeavesUtilsOk.vo")
+for _n in "SB_SHIFT_GR BLK_BITS_GR BLK_MASK_GR SB_SHIFT_GC".split():
+    T3_COVER[_n] = ("LeavesSB.v", "theories/Proofs/LeavesSBOk.vo")
+
+
 def coq_stage(prop):
     """returns dict(ok, obligations, discharged, broken:[names], axioms:[...], log)"""
     res = dict(ok=True, obligations=0, discharged=0, broken=[], axioms=[], log="", theorems=[])
@@ -50,6 +132,12 @@ def coq_stage(prop):
         res.update(ok=False, broken=["Gen (constants/table/schema extraction): " + out.strip()[-400:]])
         res["log"] = out
         return res
+    # T1 sites that could not be re-read from the source (reference value kept): decided after the build
+    try:
+        stale = json.load(open(os.path.join(COQ, "theories", "Gen", "stale_sites.json")))
+    except (OSError, ValueError):
+        stale = {}
+    res["stale_relevant"] = []
     # forbidden constructs anywhere in the development
     bad = []
     for dp, _, fs in os.walk(os.path.join(COQ, "theories")):
@@ -74,6 +162,42 @@ def coq_stage(prop):
         pass
     rc, out, dt = sh(["./build.sh", vo, "extraction/Extract.vo"], cwd=COQ, timeout=3000)
     res["log"] = out
+    if stale:
+        # relevant to this property iff one of its theorems reaches the constant through the
+        # definition-level reference graph (.glob files); file-level dependencies when the build failed
+        src0 = open(os.path.join(COQ, pfile)).read()
+        thms0 = re.findall(r"^(?:Theorem|Lemma|Corollary)\s+(\w+)", src0, flags=re.M)
+        if rc == 0:
+            hit = glob_reaches(glob_graph(), [("QwtModel.Properties.%s" % prop, t) for t in thms0], set(stale))
+        else:
+            deps = coq_deps(pfile)
+            hit = set()
+            for f in deps:
+                if f.endswith("Gen/Consts.v") or f.endswith("Proofs/ConstsOk.v"):
+                    continue
+                t = open(os.path.join(COQ, f)).read()
+                hit |= {n for n in stale if re.search(r"\b%s(?![A-Za-z0-9])" % re.escape(n), t)}
+        extra = set()
+        for name in sorted(hit):
+            cov = T3_COVER.get(name)
+            first = ""
+            if cov:
+                try:
+                    first = open(os.path.join(COQ, "theories", "Gen", cov[0])).readline()
+                except OSError:
+                    first = "(* gen_leaves failed"
+            if cov and not first.startswith("(* gen_leaves failed"):
+                extra.add(cov[1])       # T3 re-reads the whole function: its equality theorem is the tie
+            else:
+                res["stale_relevant"].append("constant %s can no longer be read from the source (%s)" % (name, stale[name]))
+        for tgt in sorted(extra):
+            rc2, out2, _ = sh(["./build.sh", tgt], cwd=COQ, timeout=3000)
+            if rc2 != 0:
+                m2 = re.search(r'File "([^"]+)", line (\d+)[^\n]*\n(Error:.*?)(?:\n\n|\Z)', out2, flags=re.S)
+                res["stale_relevant"].append("T1 site(s) stale and the T3 equality theorem no longer checks: %s"
+                                             % (("%s:%s %s" % (m2.group(1), m2.group(2), " ".join(m2.group(3).split())[:200])) if m2 else tgt))
+            else:
+                print("[check] stale T1 site(s) covered by T3: %s rebuilt, the regenerated function equals the hand model" % tgt)
     src = open(os.path.join(COQ, pfile)).read()
     thms = re.findall(r"^(?:Theorem|Lemma|Corollary)\s+(\w+)", src, flags=re.M)
     res["theorems"] = thms
@@ -81,7 +205,16 @@ def coq_stage(prop):
     if rc != 0:
         m = re.search(r'File "([^"]+)", line (\d+)[^\n]*\n(Error:.*?)(?:\n\n|\Z)', out, flags=re.S)
         where = ("%s:%s %s" % (m.group(1), m.group(2), " ".join(m.group(3).split())[:300])) if m else out.strip()[-300:]
-        res.update(ok=False, broken=["proof obligation no longer checks: " + where])
+        notes = []
+        for gf in ("LeavesUtils.v", "LeavesLine.v", "LeavesSB.v"):
+            try:
+                first = open(os.path.join(COQ, "theories", "Gen", gf)).readline()
+            except OSError:
+                first = ""
+            if first.startswith("(* gen_leaves failed:"):
+                notes.append("translator T3 could not read the source for %s: %s" % (gf, first.strip()[22:-2].strip()))
+        res.update(ok=False, broken=["proof obligation no longer checks: " + where] + notes +
+                   ["tie to the source lost: " + x for x in res["stale_relevant"]])
         return res
     # Print Assumptions audit: one block per theorem, in order
     closed = len(re.findall(r"Closed under the global context", out))
@@ -109,6 +242,8 @@ def coq_stage(prop):
     res["discharged"] = min(len(thms), closed + ax_blocks)
     if res["discharged"] < len(thms):
         res.update(ok=False, broken=["Print Assumptions missing for %d theorem(s)" % (len(thms) - res["discharged"])])
+    if res["stale_relevant"]:
+        res.update(ok=False, broken=res["broken"] + ["tie to the source lost: " + x for x in res["stale_relevant"]])
     return res
 
 
